@@ -214,7 +214,7 @@ def worker_part(run, eng):
     run.log('negative controls: both deviations of PearlWorker refuted by TLC')
     # schedules of the counterexamples on the real storage
     traces = []
-    for sc in ['busy-redefer', 'double-defer', 'channel-full']:
+    for sc in ['busy-redefer', 'double-defer', 'channel-full', 'stale-request']:
         for rep in range(1 if q else 3):
             tr = os.path.join(run.work, 'worker-%s-%d.ndjson' % (sc, rep))
             out = os.path.join(run.work, 'worker-%s-%d.out' % (sc, rep))
